@@ -355,6 +355,10 @@ def configs(tier):
     for order, R in ((2, 1), (2, 2)):  # (order 3: the nested rational identity is undecided at 120 s even for R=1)
         for w in ("pos", "any"):
             add(f"absorb/parafac/o{order}/R{R}/w_{w}", kind="cp_absorb", alg="parafac", order=order, R=R, w=w)
+    # (b') same statement for the stub-based algorithms, restricted to the re-expression the code itself uses (weights pulled into the
+    # LAST factor): both runs then hand identical arguments to the functional inner-solver stubs, so the iterates are the same terms
+    for alg in ("constrained_parafac", "non_negative_parafac_hals"):
+        add(f"absorb_last/{alg}/o3/R2/w_pos", kind="cp_absorb", alg=alg, order=3, R=2, w="pos", last_only=True)
     # (c) fixed modes, one sweep
     for alg in CP_ALGS:
         for order in (3,) if q else (2, 3):
@@ -433,11 +437,15 @@ def h_cp_absorb(E, cfg):
     alg, R, order = cfg["alg"], cfg["R"], cfg["order"]
     _configure(E, solve="exact" if alg == "parafac" else solve_regular, svd="havoc")
     T, Fs, w = cp_inputs(E, cfg)
+    if cfg.get("last_only"):
+        # unit weights take the code's "nothing to absorb" branch, where the two runs are equal only under the path condition
+        # w == 1 (the functional stubs are matched syntactically): excluded here, the zero-budget and ALS configurations cover them
+        E.assume(E.Not(E.And([E.eq(w[r], 1) for r in range(R)])))
     try:
         r1 = run_cp(alg, T, R, fresh_init(w, Fs), 1)
         d1 = dense_cp(r1.weights, r1.factors)
         alts = []
-        for k in range(order) if alg != "parafac" else (0, order - 1):
+        for k in (order - 1,) if cfg.get("last_only") else (range(order) if alg != "parafac" else (0, order - 1)):
             Fk = [cp(F) for F in Fs]
             Fk[k] = Fk[k] * np.reshape(w, (1, -1))
             r2 = run_cp(alg, T, R, (None, Fk), 1)
